@@ -20,6 +20,14 @@ def le_ind(a, b):
     return 1.0 if a <= b else 0.0
 
 
+def lt_ind(a, b):
+    return 1.0 if a < b else 0.0
+
+
+def gt_ind(a, b):
+    return 1.0 if a > b else 0.0
+
+
 def np_abs(x):
     return abs(x)
 
